@@ -7,9 +7,25 @@ case = {"legacy": bool, "files": {relpath: source}, "apps": [app names], "fires"
 """
 import json
 import os
+import shutil
+import signal
 import subprocess
 import sys
 import types
+
+CASE_LIMIT_S = 20.0      # wall-clock watchdog per case (a normal case takes 0.1-0.5 s, a few seconds on a saturated machine)
+
+
+class CaseHang(KeyboardInterrupt):
+    """raised by the SIGALRM handler; a KeyboardInterrupt subclass so that neither pyscript's `except Exception` nor asyncio's
+    task machinery swallows it"""
+
+
+def _on_alarm(_signum, _frame):
+    raise CaseHang()
+
+
+ENVS = []
 
 
 def plain(v, mod_ctx_of, func_info):
@@ -19,6 +35,8 @@ def plain(v, mod_ctx_of, func_info):
         return ["i", v]
     if v is None:
         return ["n"]
+    if isinstance(v, str):
+        return ["s", v]
     if isinstance(v, list) and all(isinstance(x, str) for x in v):
         return ["l", list(v)]
     if isinstance(v, types.ModuleType):
@@ -53,7 +71,9 @@ async def run_pyscript(case):
     from custom_components.pyscript.global_ctx import GlobalContextMgr
 
     apps_config = {a: {} for a in case.get("apps", [])} or None
-    async with PyscriptEnv(files=case["files"], legacy=case["legacy"], apps_config=apps_config) as env:
+    env0 = PyscriptEnv(files=case["files"], legacy=case["legacy"], apps_config=apps_config)
+    ENVS.append(env0)
+    async with env0 as env:
         await env.settle()
         for _ctx, _fn, ev in case["fires"]:
             env.hass.bus.async_fire(ev, {})
@@ -112,9 +132,26 @@ def main():
         for i, r in zip(want, got):
             oracle[i] = project(r)
     out = []
+    # import everything heavy before the first watchdog is armed
+    import custom_components.pyscript  # noqa: F401  pylint: disable=unused-import,import-outside-toplevel
+    import pytest_homeassistant_custom_component.common  # noqa: F401  pylint: disable=unused-import,import-outside-toplevel
+
+    signal.signal(signal.SIGALRM, _on_alarm)
     for i, case in enumerate(cases):
+        del ENVS[:]
         try:
-            r = run_virtual(run_pyscript(case))
+            signal.setitimer(signal.ITIMER_REAL, CASE_LIMIT_S, 5.0)
+            try:
+                r = run_virtual(run_pyscript(case))
+            finally:
+                signal.setitimer(signal.ITIMER_REAL, 0)
+        except CaseHang:
+            signal.setitimer(signal.ITIMER_REAL, 0)
+            # the real code did not finish this configuration: recorded as an observation, the other cases still run
+            r = {"tables": {}, "dup_module_objects": [], "errors": ["HANG: case not finished after %.0f s" % CASE_LIMIT_S], "hang": True}
+            for e in ENVS:
+                if e.tmp:
+                    shutil.rmtree(e.tmp, ignore_errors=True)
         except Exception as exc:  # pylint: disable=broad-except
             r = {"tables": {}, "dup_module_objects": [], "errors": ["HARNESS " + repr(exc)[:300]]}
         r["oracle"] = oracle.get(i)
